@@ -45,14 +45,32 @@ let emit_record oc (tag : string) (r : record) =
                 "lm", JS (Int64.to_string r.lm); "ct", JS (Int64.to_string r.ct);
                 "ser", JS (fast_hex (serialize r)) ])
 
-(* the model's verdict on an arbitrary byte string *)
+(* the model's verdict on an arbitrary byte string.  Streams for which the model says the reader asks
+   for 16 MB or more in one make() are rationed: the real code does allocate (and zero) that much, about
+   a second per 4 GB request, so only huge_left of them are emitted per run *)
+let huge_left = ref 0
+let huge_skipped = ref 0
 let emit_malformed oc (tag : string) (data : string) =
   let d = bytes_of_string data in
   let unmodelled = Model.gob_unmodelled d in
   let alloc = List.fold_left (fun a x -> max a (int_of_n x)) 0 (Model.deserialize_allocs d) in
+  if alloc >= 1 lsl 24 && !huge_left <= 0 then incr huge_skipped else begin
+  if alloc >= 1 lsl 24 then decr huge_left;
   let binary_ok = (match Model.deserialize_binary d with Some _ -> true | None -> false) in
   let base = [ "stream", JS "malformed"; "tag", JS tag; "data", JS (fast_hex data);
                "unmodelled", JB unmodelled; "alloc", JI alloc; "binary_ok", JB binary_ok ] in
+  (* a stream whose first byte is not the version byte: what the binary reader would make of it if it
+     did not look at that byte (the runner reports an implementation that returns exactly this) *)
+  let fields (c : Model.compiled) pre =
+    [ pre ^ "name", JS (hexb c.Model.c_name); pre ^ "src", JS (hexb c.Model.c_source); pre ^ "ast", JS (hexb c.Model.c_ast);
+      pre ^ "lm", JS (Int64.to_string (int64_of_z c.Model.c_last_modified));
+      pre ^ "ct", JS (Int64.to_string (int64_of_z c.Model.c_compile_time)) ] in
+  let base = base @ (match d with
+      | b0 :: rest when int_of_byte b0 <> 1 ->
+        (match Model.deserialize_binary (byte_of_int 1 :: rest) with
+         | Some c when c.Model.c_name <> [] || c.Model.c_source <> [] -> ("alt", JB true) :: fields c "alt_"
+         | _ -> [])
+      | _ -> []) in
   match Model.deserialize_compiled Model.gob_model d with
   | None -> emit oc (Ob (base @ [ "ok", JB false ]))
   | Some c ->
@@ -60,6 +78,7 @@ let emit_malformed oc (tag : string) (data : string) =
                           "name", JS (hexb c.Model.c_name); "src", JS (hexb c.Model.c_source); "ast", JS (hexb c.Model.c_ast);
                           "lm", JS (Int64.to_string (int64_of_z c.Model.c_last_modified));
                           "ct", JS (Int64.to_string (int64_of_z c.Model.c_compile_time)) ]))
+  end
 
 (* ---- byte string generators ---- *)
 let rand_bytes r n = String.init n (fun _ -> Char.chr (rint r 256))
@@ -120,7 +139,7 @@ let put32 (n : int) : string = String.init 4 (fun i -> Char.chr ((n lsr (8 * i))
 let splice (s : string) (off : int) (repl : string) : string =
   String.sub s 0 off ^ repl ^ String.sub s (off + String.length repl) (String.length s - off - String.length repl)
 
-let malformed_from r oc (rc : record) ~(huge : bool) =
+let malformed_from r oc (rc : record) ~(huge : int list) =
   let s = serialize rc in
   let n = String.length s in
   (* truncations: every offset when small, else the field boundaries and a sample *)
@@ -134,7 +153,7 @@ let malformed_from r oc (rc : record) ~(huge : bool) =
   List.iter (fun k -> if k >= 0 && k < n then emit_malformed oc "truncated" (String.sub s 0 k)) cuts;
   (* mutated length prefixes *)
   let small = [ 0; 1; String.length rc.name + 1; String.length rc.src + 1; n; 65535; 65536 ] in
-  let big = if huge then [ 0x80000000; 0xffffffff; 0x7fffffff ] else [] in
+  let big = huge in
   List.iter (fun off ->
       List.iter (fun v -> emit_malformed oc (if v >= 0x10000000 then "prefix-huge" else "prefix-mutated") (splice s off (put32 v))) (small @ big);
       (* off by one in either direction *)
@@ -176,7 +195,7 @@ let templates = [
   "{% for i in items %}{% if loop.first %}[{% endif %}{{ i }}{% if loop.last %}]{% endif %}{% endfor %}";
   "{% for w in words %}{% for i in items %}{{ w }}{{ i }} {% endfor %}{% endfor %}";
   "{% for k, v in user %}{{ k }}={{ v }};{% endfor %}";
-  "{% for i in 1..3 %}{{ i }}{% endfor %}";
+  "{% for i in range(1, 3) %}{{ i }}{% endfor %}";
   "{% set x = 5 %}{{ x }}{% set x = x + 1 %}{{ x }}";
   "{% set greeting = 'Hi ' ~ name %}{{ greeting }}";
   "{% set total = 0 %}{% for i in items %}{% set total = total + i %}{% endfor %}{{ total }}";
@@ -197,7 +216,7 @@ let templates = [
   "{{ name|title }} {{ name|capitalize }} {{ name|trim }}";
   "{{ a|abs }} {{ b|abs }} {{ 3.7|round }}";
   "{{ items|reverse|join('') }} {{ words|sort|join('') }}";
-  "{{ name|replace({'o': '0'}) }}";
+  "{{ name|replace('o', '0') }}";
   "{{ name|slice(1, 2) }}|{{ items|slice(1)|join(',') }}";
   "{{ g }}|{{ name|shout }}";
   "{{ undefined_var }}|{{ user.nothing }}";
@@ -243,13 +262,16 @@ let run ~seed ~tier oc =
       emit_malformed oc "exhaustive-01xy" (Printf.sprintf "\x01%c%c" (Char.chr x) (Char.chr y))
     done
   done;
-  List.iteri (fun i (_, rc) -> malformed_from r oc rc ~huge:(i < 3)) fixed_records;
+  huge_left := if thorough then 40 else 3;
+  List.iteri (fun i (_, rc) ->
+      malformed_from r oc rc ~huge:(if i = 0 then (if thorough then [ 0xffffffff; 0x80000000; 0x7fffffff ] else [ 0xffffffff ]) else if thorough && i < 4 then [ 0xffffffff; 0x80000000; 0x7fffffff ] else []))
+    fixed_records;
   let nmal = if thorough then 600 else 60 in
   for i = 1 to nmal do
     let rc = rand_record r ~big:3000 in
-    malformed_from r oc rc ~huge:(thorough && i mod 40 = 0)
+    malformed_from r oc rc ~huge:[]
   done;
-  malformed_from r oc { name = "big"; src = rand_bytes r big; lm = 3L; ct = 4L; ast = "xyz" } ~huge:false;
+  malformed_from r oc { name = "big"; src = rand_bytes r big; lm = 3L; ct = 4L; ast = "xyz" } ~huge:[];
   let nrand = if thorough then 20000 else 1500 in
   for _ = 1 to nrand do
     let body = rand_bytes r (rint r 64) in
